@@ -175,10 +175,10 @@ fn gen_output(s: &mut Src<'_>) -> (Out, Vec<chia_protocol::CoinSpend>) {
     for _ in 0..n_mut {
         pristine = false;
         let k = if spends.is_empty() { 0 } else { s.below(spends.len()) };
-        let kind = s.below(22);
+        let kind = s.below(23);
         // field mutations need an intact 4-field spend
         let intact = !spends.is_empty() && spends[k].0.len() >= 4;
-        let kind = if (10..=19).contains(&kind) && !intact { 3 } else { kind };
+        let kind = if ((10..=19).contains(&kind) || kind == 22) && !intact { 3 } else { kind };
         let name = match kind {
             0 => {
                 if !spends.is_empty() {
@@ -315,6 +315,24 @@ fn gen_output(s: &mut Src<'_>) -> (Out, Vec<chia_protocol::CoinSpend>) {
                     spends[k].0.push(x);
                 }
                 "huge-atom-extra"
+            }
+            22 => {
+                if !spends.is_empty() {
+                    // a puzzle reveal containing an atom of several KiB:
+                    // (q . ((REMARK small) (REMARK <big atom>)))
+                    let n = *s.pick(&[1025usize, 4095, 4096, 4097, 5000, 8192, 20_000]);
+                    let big = vec![0x6bu8; n];
+                    let q = t.atom(&[1]);
+                    let r1 = t.atom(&[1]);
+                    let five = t.atom(&[5]);
+                    let c1 = t.list(&[r1, five]);
+                    let r2 = t.atom(&[1]);
+                    let b = t.atom(&big);
+                    let c2 = t.list(&[r2, b]);
+                    let conds = t.list(&[c1, c2]);
+                    spends[k].0[1] = t.pair(q, conds);
+                }
+                "puzzle-with-big-atom"
             }
             _ => {
                 if !spends.is_empty() {
